@@ -154,6 +154,31 @@ func (*c04) Oracle(ci, oi any) []hx.Violation {
 		add("modifies-"+kind, fmt.Sprintf("%s (%s) modified its input: %s", c.Kind, c.API, m))
 	}
 	if obs.Err != "" {
+		// a failing --set expression may have stored something under the keys it names, but
+		// it must leave every other top-level key of the destination alone
+		if c.Kind == "parse" && len(c.Parse.Pairs) > 0 {
+			named := map[string]bool{}
+			for _, pr := range c.Parse.Pairs {
+				named[pr.Path[0].Key] = true
+			}
+			after, _ := orAsTree(obs.Out)
+			before := c.Parse.Dest
+			if before == nil {
+				before = vtree{}
+			}
+			for _, t := range []vtree{before, after} {
+				for k := range t {
+					if named[k] {
+						continue
+					}
+					b, bok := before[k]
+					a, aok := after[k]
+					if bok != aok || !vtEqual(a, b) {
+						add("set-error-changes-other-key", fmt.Sprintf("%s(%q) failed and changed key %q, which it does not name, from %#v (%v) to %#v (%v)", c.Parse.Fn, c.Parse.S, k, b, bok, a, aok))
+					}
+				}
+			}
+		}
 		return vs
 	}
 	pstr := func(p []string) string { return strings.Join(p, ".") }
